@@ -392,10 +392,20 @@ func init() {
 	}
 	models[sc+"BlockHeader"] = func(e *Exec, a []Value) []Value {
 		c := ctxOf(e, a[0])
-		if c.Header == nil {
-			e.unsupported("BlockHeader not configured by the harness")
+		ht := e.W.typeByName("github.com/cometbft/cometbft/proto/tendermint/types", "Header")
+		h := e.zero(ht).(*StructV)
+		st := ht.Underlying().(*types.Struct)
+		for i := 0; i < st.NumFields(); i++ {
+			switch st.Field(i).Name() {
+			case "Height":
+				h.F[i] = c.Height
+			case "Time":
+				h.F[i] = c.Time
+			case "ChainID":
+				h.F[i] = c.ChainID
+			}
 		}
-		return []Value{c.Header}
+		return []Value{h}
 	}
 	models[sc+"Logger"] = func(e *Exec, a []Value) []Value { return []Value{IfaceV{V: &ModelObj{Kind: "logger"}}} }
 	for _, m := range []string{"Debug", "Info", "Warn", "Error"} {
@@ -520,11 +530,20 @@ func init() {
 			return []*Term{Implies(t, IGt(App("str.len", IntSort, t.Args[0]), IntI(0)))}
 		}
 		instanceAxioms["addr.str."+k] = func(t *Term) []*Term {
+			if t.Args[0].Op == "addr.of."+k {
+				return []*Term{App("addr.valid."+k, BoolSort, t)}
+			}
 			return []*Term{App("addr.valid."+k, BoolSort, t), Eq(App("addr.of."+k, BytesSort, t), t.Args[0])}
 		}
 		instanceAxioms["addr.of."+k] = func(t *Term) []*Term {
 			// user addresses are never module-derived bridge escrow addresses (idealised address derivation)
-			return []*Term{Not(App("addr.isModuleDerived", BoolSort, t))}
+			out := []*Term{Not(App("addr.isModuleDerived", BoolSort, t))}
+			if t.Args[0].Op != "addr.str."+k {
+				// address strings are canonical: a valid string is the rendering of the bytes it decodes to
+				// (the upper-case bech32 spelling of the same address is outside the model)
+				out = append(out, Implies(App("addr.valid."+k, BoolSort, t.Args[0]), Eq(App("addr.str."+k, StrSort, t), t.Args[0])))
+			}
+			return out
 		}
 	}
 }
